@@ -13,8 +13,8 @@ ACTIONS = ["Init", "Bump", "Shift", "Swap"]
 # read by bin/mkmanifest
 META = {
     "category": "model_checking",
-    "text": "TLC checks the four RFC 1982 laws (a+n > a for n in 1..2^(k-1)-1, antisymmetry, undefined exactly at distance 2^(k-1), shift invariance) and the equality of the transcribed partial_cmp/add with the RFC text for all pairs and all addends at 8 bits (9 and 11 bits thorough); every one of these k-bit evaluations is lifted to 32 bits by the exact embedding x*2^(32-k)+c (several offsets c, for ordered pairs also different offsets per side, which reaches the distances 2^31-1 and 2^31+1) and executed on Serial (partial_cmp, the five operators, add), Timestamp, SOA/RRSIG wire round trips, sign_rrset's validity-period check, the zone diff builder's serial-range check, the XFR middleware's IXFR decision (single SOA for a client with the same or a newer serial, transfer otherwise; XfrMiddlewareSvc::preprocess with a data provider that offers diffs) and new::base::Serial; the placement of a signature time next to a reference time (Timestamp::to_system_time) is specified as Place(ref, ts) with its order-embedding and shift laws checked by TLC for all reference times in three eras (6 bits quick, 7 thorough), and every case is lifted (independent offsets on reference and serial) and executed; the text entry points of Timestamp (FromStr, Timestamp::scan through IterScanner, the zone-file reader's RRSIG fields; date form and integer form; Display and the zone-file formatter) are specified as 'text denotes a time t, the field holds t mod 2^k' and executed for every pair of times in three eras with real dates rendered by the harness (2106-02-07 and later included); recorded library runs on dense 32-bit operands (boundary distances 2^31+-2, neighbourhoods of 0 and 2^32-1, panicking addends, the zone store's SOA serial bump on commit) are validated by TLC through a 16-bit-limb model that TLC proves equal to the integer model at small widths.",
-    "note": "Trusted: TLC, the transcription of RFC 1982 in Serial.tla, the uniformity in the limb base of SerialLimbs.tla (equivalence is TLC-checked at limb widths 4/5, used at 16), the harness. zonetree's Version type is private (not driven; derives its order from Serial). Sites that compare serials/timestamps but are not bound here: validator check_sig / ttl_for_sig (plain u32 order, real clock; reported to C14), server cookie timestamp_ok (real clock, cannot straddle the wrap), new::edns::Cookie::verify (Range<new Serial>::contains, delegates to the bound partial_cmp), new::rdata Timestamp including its copy of to_system_time (type not exported); net::client::stream and the XFR interpreter compare serials by equality only. Dense 2^64 coverage is sampled by traces; the full sweep of all 2^32 differences uses a Rust reference that the same TLC runs bind to the spec and is reported separately as an extension, as is the optional Apalache run for BITS=32.",
+    "text": "TLC checks the four RFC 1982 laws (a+n > a for n in 1..2^(k-1)-1, antisymmetry, undefined exactly at distance 2^(k-1), shift invariance) and the equality of the transcribed partial_cmp/add with the RFC text for all pairs and all addends at 8 bits (9 and 11 bits thorough); every one of these k-bit evaluations is lifted to 32 bits by the exact embedding x*2^(32-k)+c (several offsets c, for ordered pairs also different offsets per side, which reaches the distances 2^31-1 and 2^31+1) and executed on Serial (partial_cmp, the five operators, add), Timestamp, SOA/RRSIG wire round trips, sign_rrset's validity-period check, the zone diff builder's serial-range check, the XFR middleware's IXFR decision (single SOA for a client with the same or a newer serial, transfer otherwise; XfrMiddlewareSvc::preprocess with a data provider that offers diffs and with one that has none, i.e. both comparisons of the middleware), new::base::Serial and the new API's signature time (the Timestamp returned by new::rdata::Rrsig::expiration(): partial_cmp, the five operators, into_int, Display, the conversion into rdata::dnssec::Timestamp, Range::contains, its own to_system_time); the sites are a table in the specification (SerialSites.tla: kind, site, operator of Serial.tla) from which every generated case takes one expectation per site and which the executor has to reproduce; validity windows InWindow(lo, hi, x) (new::edns::Cookie::verify, Range::contains over all four serial / time types) are checked for every triple incl. windows straddling the wrap; the freshness decision of the server cookies middleware (CookiesMiddlewareSvc::timestamp_ok: at most one hour old, at most five minutes ahead, both by RFC 1982) is specified as Fresh(now, ts, past, future) with its laws (window form = distance form = two serial comparisons, exactly past+future+1 fresh values at any clock value, never fresh at the undefined distance, shift invariance, Tick / Renew steps) checked by TLC for all k-bit (clock, timestamp) pairs, and every pair is lifted inside TLC to 32 bits in limb form (five clock offsets x eleven second offsets around both window ends, so that pairs exactly 2^31 apart, pairs more than 2^31 'ahead' numerically and pairs on either side of the 2^32 wrap occur for every clock value) and put to the real middleware with correctly hashed cookies and the process clock set to the case's clock value (prefetch request and deny-listed UDP query) and to base::opt::Cookie::check_server_hash; the placement of a signature time next to a reference time (Timestamp::to_system_time) is specified as Place(ref, ts) with its order-embedding and shift laws checked by TLC for all reference times in three eras (6 bits quick, 7 thorough), and every case is lifted (independent offsets on reference and serial) and executed; the text entry points of Timestamp (FromStr, Timestamp::scan through IterScanner, the zone-file reader's RRSIG fields; date form and integer form; Display and the zone-file formatter) are specified as 'text denotes a time t, the field holds t mod 2^k' and executed for every pair of times in three eras with real dates rendered by the harness (2106-02-07 and later included); recorded library runs on dense 32-bit operands (boundary distances 2^31+-2, neighbourhoods of 0 and 2^32-1, panicking addends, the zone store's SOA serial bump on commit) are validated by TLC through a 16-bit-limb model that TLC proves equal to the integer model at small widths.",
+    "note": "Trusted: TLC, the transcription of RFC 1982 in Serial.tla, the uniformity in the limb base of SerialLimbs.tla (equivalence is TLC-checked at limb widths 4/5, used at 16), the harness. zonetree's Version type is private (not driven; derives its order from Serial). The harness interposes clock_gettime(CLOCK_REALTIME) for the freshness sites (self-tested at start-up together with the harness's own SipHash). Sites that use serials/times but are not bound here (NotBound in SerialSites.tla, listed in the evidence): validator check_sig / ttl_for_sig (compare in plain u32 order through canonical_gt/lt and saturating_sub: an observation DESIGN 10.3 deliberately leaves outside the claim), Soa / Rrsig / Zonemd record ordering (plain order by design), net::client::stream and the XFR interpreter (serial equality only), zonetree Version (private), keyset UnixTime (64-bit). Dense 2^64 coverage is sampled by traces; the full sweep of all 2^32 differences uses a Rust reference that the same TLC runs bind to the spec and is reported separately as an extension, as is the optional Apalache run for BITS=32.",
     "technique": "TLA+ spec (Serial.tla, SerialLimbs.tla) + TLC exhaustive; spec->impl replay through scaled embedding; impl->spec limb-encoded trace validation; reference sweep and Apalache as extensions",
     "design_ref": "DESIGN.md §4 C17",
 }
@@ -568,11 +568,13 @@ def run(ctx):
     ctx.assume("IXFR decision: RFC 1995 section 2 (same or newer client serial -> single SOA); "
                "a transfer is any answer with more than one record (diff sequence or AXFR "
                "fallback); at distance exactly 2^31 either answer is accepted")
+    ctx.assume("freshness (RFC 9018 4.3): a timestamp exactly at an end of the window (one hour "
+               "old, five minutes ahead) may be accepted or refused; the wall clock the "
+               "middleware reads is the harness's interposed clock_gettime")
     ctx.assume("not bound (listed, not checked): validator check_sig/ttl_for_sig signature-time "
-               "tests (plain u32 order, real clock), server cookie timestamp_ok (real clock), "
-               "new::edns::Cookie::verify (Range<Serial>::contains), new::rdata Timestamp "
-               "with its copy of to_system_time (type not exported); client stream / XFR interpreter use "
-               "serial equality only")
+               "tests (plain u32 order by way of canonical_gt/lt and saturating_sub; observation "
+               "outside the claim, DESIGN 10.3); record ordering of Soa / Rrsig / Zonemd; client "
+               "stream / XFR interpreter use serial equality only")
 
 
 def replay(ctx, case):
